@@ -2,7 +2,7 @@
     harness wrote (real fabio outputs next to the inputs that produced them). *)
 From Coq Require Import String List NArith ZArith Bool.
 From Fabio Require Import Lib.Outcome Lib.Bytes Lib.Verdict
-     Model.FlagSet Model.KVSlice Model.GlobCacheSize Model.StartUp.
+     Model.FlagSet Model.KVSlice Model.GlobCacheSize Model.StartUp Model.LoadArgs.
 Import ListNotations.
 Local Open Scope N_scope.
 
@@ -60,6 +60,8 @@ Inductive case :=
    of the map) after the sequence, when the cache was built *)
 | CGlob (size : Z) (matching_disabled : bool) (accepted : bool) (calls : list (str * bool))
         (impl : outcome (list (outcome bool))) (final : option (N * N * list str))
+(* config.parse(args): impl = Ok (cmdline, path, version) | Err 1 | Panic *)
+| CArgs (args : list str) (impl : outcome (list str * str * bool))
 (* metrics.interval = interval (ns), metrics.target with / without a ticker-driven provider:
    did config.Load accept it, and what did starting the providers do in a child process:
    out 0 started, 1 metrics.Initialize returned an error, 3 PANIC, 4 rejected by Load *)
@@ -222,6 +224,14 @@ Definition check_case (c : case) : N :=
                   | Ok (Some _) => (out =? 0) || (out =? 1)      (* parseListen decides *)
                   end in
       verdict same (negb (out =? 3)) None (match m with Err 2 => true | _ => false end)
+  | CArgs args impl =>
+      let m := config_parse args in
+      let same := out_eqb (fun a b : list str * str * bool =>
+                             strs_eqb (fst (fst a)) (fst (fst b)) && beq (snd (fst a)) (snd (fst b))
+                             && Bool.eqb (snd a) (snd b)) impl m in
+      (* an empty argument list is outside the quantifier (os.Args is never empty) *)
+      let spec := match args with [] => true | _ => negb (is_panic impl) end in
+      verdict same spec None (match m with Ok (_ :: _ :: _, _, _) => true | Ok (_, _ :: _, _) => true | _ => false end)
   | CMetricsStart interval ticker accepted out =>
       let m := load_then_start_metrics interval ticker in
       let same := Bool.eqb accepted (load_accepts_metrics_interval interval)
